@@ -260,6 +260,26 @@ def runRaw (st : St) (c : Nat) (keepConnack : Bool) (evs : List Ev) (pendAfter :
     sl ++ " " ++ " ".intercalate (free.eraseDups.map (fun i => s!"c{i}[?]"))
   (st3, ml, if sl.startsWith "- " then (sl.drop 2).toString else sl)
 
+/-- `race <a> <hex|close> <p> <hex>`: connection `a` sends its bytes (or its socket is closed) while
+connection `p` sends packets, nothing in between.  The model takes `a`'s events first; the line is
+the same for every interleaving as long as `a` ends up closed (what `a` received is then not
+compared) — the generators use it only that way. -/
+def handleRace (st : St) (a : Nat) (xa : Option Bytes) (p : Nat) (bp : Bytes) : St × String × String :=
+  if !st.m.alive a || !st.m.alive p || a == p || st.mid p then (st, "-", "-") else
+  let (evsA, restA) := match xa with
+    | none => ([Ev.close a], [])
+    | some bs => let avail := st.pendOf a ++ bs; Mqtt.Model.Framing.postEvents ringSize a (avail.length + 1) avail
+  let (evsP, restP) := Mqtt.Model.Framing.postEvents ringSize p (bp.length + 1) bp
+  let evs := evsA ++ evsP
+  let (m, mo) := stepsModel st.m evs
+  let (s, so, free) := stepsSpec st.s evs
+  let st1 : St := { st with m := m, s := s }
+  let st2 := (st1.setPend a (if m.alive a then restA else [])).setPend p (if m.alive p then restP else [])
+  let (st3, ml, sl) := emit st2 (some a) false mo so (!evsA.isEmpty)
+  let sl := if free.isEmpty || sl == "*" then sl else
+    sl ++ " " ++ " ".intercalate (free.eraseDups.map (fun i => s!"c{i}[?]"))
+  (st3, ml, if sl.startsWith "- " then (sl.drop 2).toString else sl)
+
 def handleRaw (st : St) (c : Nat) (bs : Bytes) : St × String × String :=
   if !st.m.alive c then (st, "-", "-") else
   let avail := st.pendOf c ++ bs
@@ -283,6 +303,10 @@ def handle (st : St) (ws : List String) : St × String × String :=
     match c.toNat?, unhex hex with
     | some c, some bs => handleRaw st c bs
     | _, _ => (st, "bad-op", "bad-op")
+  | ["race", a, xa, p, hp] =>
+    match a.toNat?, (if xa == "close" then some none else (unhex xa).map some), p.toNat?, unhex hp with
+    | some a, some xa, some p, some bp => handleRace st a xa p bp
+    | _, _, _, _ => (st, "bad-op", "bad-op")
   | ["rawfirst", c, hex, k] =>
     match c.toNat?, unhex hex, parseBool k with
     | some c, some bs, some k => handleRawFirst st c bs k
